@@ -86,6 +86,19 @@ func TestC14(t *testing.T) {
 			Case lmCase `json:"case"`
 		}
 
+		// a replay of the filtered-watch phase carries a scenario instead of a table row
+		var wf struct {
+			Case wScenario `json:"case"`
+		}
+
+		if err := json.Unmarshal(b, &wf); err == nil && len(wf.Case.Acts) > 0 {
+			runWatchScenarios(t, dir, rep, "C14", []wScenario{wf.Case})
+			rep.CorrIsSpec = true
+			rep.write(t, dir)
+
+			return
+		}
+
 		if err := json.Unmarshal(b, &rf); err != nil {
 			t.Fatal(err)
 		}
@@ -303,6 +316,46 @@ func TestC14(t *testing.T) {
 				rep.violateKey(i, "multi-term:remote-differs", fmt.Sprintf("multi-term: List over gRPC gives %v, the terms give %v", got, want), replay)
 			}
 		}
+	}
+
+	// ---- filtered kind watches (plain and aggregated; the gRPC site reuses this server-side filter, its selector translation is the table above): every kind watch carries a label selector,
+	// an ID query or both; every delivered batch is compared with the model's rewriting filter (WatchCheck.kind_view) and
+	// the replayed events with the filtered List ----
+	if os.Getenv("VERIF_REPLAY") == "" {
+		r := newRng(seed(), "C14watch")
+
+		var scs []wScenario
+
+		for i := range tier(150, 3000) {
+			sc := genWatchScenario(r, 12+r.intn(40), "inmem")
+
+			for j := range sc.Acts {
+				a := &sc.Acts[j]
+				if a.Op != "start" {
+					continue
+				}
+
+				if a.Mode == "single" {
+					a.Mode, a.ID = pick(r, []string{"kind", "agg"}), ""
+				}
+
+				if a.Start != "default" {
+					a.Start, a.N, a.Pos = "default", 0, 0
+				}
+
+				for len(a.Sel) == 0 && (len(a.IDs) == 0 || i%3 != 0) {
+					a.Sel = genSel(r)
+				}
+
+				if len(a.IDs) == 0 && r.chance(1, 2) {
+					a.IDs = pick(r, [][]string{{"a"}, {"a", "b"}, {"b", "c"}, {"c"}})
+				}
+			}
+
+			scs = append(scs, sc)
+		}
+
+		runWatchScenarios(t, dir, rep, "C14", scs)
 	}
 
 	rep.CorrIsSpec = true
